@@ -6,6 +6,7 @@ use elements::{dynafed, AssetIssuance, Block, BlockExtData, BlockHash, BlockHead
 use serde_json::json;
 
 use crate::engine::*;
+use crate::gen::ext_g1 as xg;
 use crate::gen::{self, pool, TxOpts};
 use crate::refimpl::{enc, sha256::sha256d};
 use crate::{ensure, ensure_eq};
@@ -17,14 +18,46 @@ fn lib_wtxid(tx: &Transaction) -> Result<[u8; 32], Failure> {
     guard::guard("wtxid", 0, || tx.wtxid().to_byte_array())
 }
 
+/// failure-path diagnostic (attribution only, no verdict depends on it): does the id equal the hash
+/// of the library's *own* serialization? Then the hash function is consistent and the root cause is
+/// the encoder (C01), which the reference comparison shows as well.
+fn attribution(tx: &Transaction, got: &[u8; 32], stripped: bool) -> &'static str {
+    let own = guard::guard("serialize", 0, || {
+        if stripped {
+            let mut c = tx.clone();
+            for i in &mut c.input {
+                i.witness = Default::default();
+            }
+            for o in &mut c.output {
+                o.witness = Default::default();
+            }
+            elements::encode::serialize(&c)
+        } else {
+            elements::encode::serialize(tx)
+        }
+    });
+    match own {
+        Ok(b) if &sha256d(&b) == got => {
+            " [attribution: the id equals sha256d of the library's own serialization, which differs from the reference encoding: the encoder is at fault (C01), the hash is consistent with it]"
+        }
+        _ => "",
+    }
+}
+
 fn check_ids(tx: &Transaction, ctx: &mut Ctx) -> Result<([u8; 32], [u8; 32]), Failure> {
     let txid = lib_txid(tx)?;
     let wtxid = lib_wtxid(tx)?;
     ctx.evals_n(2);
     let want_txid = sha256d(&enc::tx_stripped(tx));
     let want_wtxid = sha256d(&enc::tx_full(tx));
-    ensure_eq!(hex(&txid), hex(&want_txid), "txid is not sha256d of the witness-stripped serialization");
-    ensure_eq!(hex(&wtxid), hex(&want_wtxid), "wtxid is not sha256d of the full serialization");
+    if txid != want_txid {
+        let a = attribution(tx, &txid, true);
+        ensure_eq!(hex(&txid), hex(&want_txid), "txid is not sha256d of the witness-stripped serialization ({} inputs, {} outputs, {:?}){}", tx.input.len(), tx.output.len(), xg::tx_features_x(tx), a);
+    }
+    if wtxid != want_wtxid {
+        let a = attribution(tx, &wtxid, false);
+        ensure_eq!(hex(&wtxid), hex(&want_wtxid), "wtxid is not sha256d of the full serialization ({} inputs, {} outputs, {:?}){}", tx.input.len(), tx.output.len(), xg::tx_features_x(tx), a);
+    }
     ensure!(
         (txid == wtxid) == !enc::tx_has_witness(tx),
         "wtxid == txid must hold exactly when there is no witness (has_witness={})",
@@ -396,6 +429,88 @@ fn tx_ids(t: &mut Tape, ctx: &mut Ctx) -> R {
     Ok(())
 }
 
+/// index of the first input / output that differs (None: only version / lock time / counts differ)
+fn first_changed_index(a: &Transaction, b: &Transaction) -> Option<usize> {
+    let i = a.input.iter().zip(b.input.iter()).position(|(x, y)| x != y);
+    let o = a.output.iter().zip(b.output.iter()).position(|(x, y)| x != y);
+    match (i, o) {
+        (Some(x), Some(y)) => Some(x.max(y)),
+        (x, y) => x.or(y),
+    }
+}
+
+/// `tx_ids` on transactions with every count class and elements varied at every index
+/// (`ext_g1::gen_tx_x`); the choices of every modification (position first) are drawn *before* the
+/// transaction, one window per modification kind, so that positions reach the high indices
+fn tx_ids_big(t: &mut Tape, ctx: &mut Ctx) -> R {
+    let windows: Vec<Vec<u8>> = (0..TX_WIT_MODS + TX_NONWIT_MODS)
+        .map(|k| {
+            let mut w = t.bytes(6);
+            xg::expand_window(&mut w, k as u64, 160);
+            w
+        })
+        .collect();
+    let (sel_a, sel_b) = (t.u32(), t.u32());
+    let o = TxOpts::default();
+    let tx = xg::gen_tx_x(t, &o, &[1000]);
+    let (txid, wtxid) = check_ids(&tx, ctx)?;
+    let feats = xg::tx_features_x(&tx);
+    for f in &feats {
+        ctx.class(&format!("x:{}", f));
+    }
+    // a big transaction gets a tape-chosen quarter of the 23 modification kinds (each costs four hashes of it)
+    let heavy = enc::tx_full(&tx).len() > 40_000;
+    if heavy {
+        ctx.class("x:tx-encoding>40000-bytes");
+    }
+    let runs = |k: usize| !heavy || ((sel_a >> k) & (sel_b >> k) & 1) == 1;
+    for k in 0..TX_WIT_MODS {
+        if !runs(k) {
+            continue;
+        }
+        let mut m = tx.clone();
+        let mut wt = Tape::new(&windows[k]);
+        let Some((label, nondefault)) = tx_witness_mod(&mut wt, &mut m, k) else { continue };
+        if m == tx {
+            continue;
+        }
+        let (txid2, wtxid2) = check_ids(&m, ctx)?;
+        let at = first_changed_index(&tx, &m);
+        ensure!(txid2 == txid, "txid changed by a witness-only modification of {} (element {:?} of {} inputs / {} outputs)", label, at, tx.input.len(), tx.output.len());
+        ensure!(wtxid2 != wtxid, "wtxid unchanged by a modification of witness field {} (element {:?} of {} inputs / {} outputs)", label, at, tx.input.len(), tx.output.len());
+        ctx.class(&format!("xmod:witness:{}", label));
+        if at.map_or(false, |a| a >= 60) {
+            ctx.class("xmod:witness:at-index>=60");
+        }
+        if nondefault {
+            ctx.nontrivial(&("xw", label, &txid, k));
+        }
+    }
+    for k in 0..TX_NONWIT_MODS {
+        if !runs(TX_WIT_MODS + k) {
+            continue;
+        }
+        let mut m = tx.clone();
+        let mut wt = Tape::new(&windows[TX_WIT_MODS + k]);
+        let Some((label, nondefault)) = tx_nonwitness_mod(&mut wt, &mut m, k) else { continue };
+        if m == tx {
+            continue;
+        }
+        let (txid2, wtxid2) = check_ids(&m, ctx)?;
+        let at = first_changed_index(&tx, &m);
+        ensure!(txid2 != txid, "txid unchanged by a modification of non-witness field {} (element {:?} of {} inputs / {} outputs)", label, at, tx.input.len(), tx.output.len());
+        ensure!(wtxid2 != wtxid, "wtxid unchanged by a modification of non-witness field {} (element {:?} of {} inputs / {} outputs)", label, at, tx.input.len(), tx.output.len());
+        ctx.class(&format!("xmod:non-witness:{}", label));
+        if at.map_or(false, |a| a >= 60) {
+            ctx.class("xmod:non-witness:at-index>=60");
+        }
+        if nondefault {
+            ctx.nontrivial(&("xn", label, &txid, k));
+        }
+    }
+    Ok(())
+}
+
 fn lib_hash(h: &BlockHeader) -> Result<[u8; 32], Failure> {
     guard::guard("block_hash", 0, || h.block_hash().to_byte_array())
 }
@@ -404,7 +519,7 @@ fn check_hash(h: &BlockHeader, ctx: &mut Ctx) -> Result<[u8; 32], Failure> {
     ctx.eval();
     let mut b = Vec::new();
     enc::header(&mut b, h, true);
-    ensure_eq!(hex(&got), hex(&sha256d(&b)), "block hash is not sha256d of the header without solution / signblock witness");
+    ensure_eq!(hex(&got), hex(&sha256d(&b)), "block hash is not sha256d of the header without solution / signblock witness (long fields: {:?})", xg::header_features_x(h));
     Ok(got)
 }
 
@@ -557,9 +672,71 @@ fn header_witness_mod(t: &mut Tape, h: &mut BlockHeader) -> (&'static str, bool)
     }
 }
 
+/// a solution on the other side of a compact-size boundary
+fn other_solution_x(t: &mut Tape, cur: &Script) -> Script {
+    let targets = [0usize, 1, 0xfc, 0xfd, 0xfe, 0xffff, 0x10000, cur.len() + 1, cur.len().saturating_sub(1)];
+    let mut n = targets[t.below(targets.len())];
+    if n == cur.len() {
+        n += 1;
+    }
+    let s = t.u8();
+    Script::from((0..n).map(|i| s.wrapping_add((i as u8).wrapping_mul(13))).collect::<Vec<u8>>())
+}
+/// a signblock witness whose count or one item sits on the other side of a compact-size boundary
+fn other_stack_x(t: &mut Tape, cur: &[Vec<u8>]) -> Vec<Vec<u8>> {
+    let mut s = cur.to_vec();
+    match t.below(4) {
+        0 => {
+            let targets = [0usize, 1, 0xfc, 0xfd, 0xfe, 0x100, 0x10000];
+            let mut n = targets[t.below(targets.len())];
+            if n == s.len() {
+                n += 1;
+            }
+            s.resize(n, vec![]);
+        }
+        1 if !s.is_empty() => {
+            let k = t.below(s.len());
+            let targets = [0usize, 0xfc, 0xfd, 0xfe, 0xffff, 0x10000];
+            let mut n = targets[t.below(targets.len())];
+            if n == s[k].len() {
+                n += 1;
+            }
+            let f = t.u8();
+            s[k] = (0..n).map(|i| f.wrapping_add((i as u8).wrapping_mul(7))).collect();
+        }
+        2 if !s.is_empty() => {
+            // same bytes, different item boundaries: drop the last byte of one item
+            let k = t.below(s.len());
+            if s[k].pop().is_none() {
+                s[k].push(1);
+            }
+        }
+        _ => s.push(vec![0xfd; 0xfd]),
+    }
+    s
+}
+
 fn headers(t: &mut Tape, ctx: &mut Ctx) -> R {
-    let h = gen::gen_header(t);
+    headers_impl(t, ctx, false)
+}
+/// `headers` on headers whose solution / challenge / parameter scripts / witness items / extension
+/// entries and whose witness / extension counts cross 0xfd and 0x10000 (`ext_g1::gen_header_x`);
+/// the witness modification also moves a length or count across a boundary; `Block::block_hash`
+/// with transactions in the block
+fn headers_big(t: &mut Tape, ctx: &mut Ctx) -> R {
+    headers_impl(t, ctx, true)
+}
+
+fn headers_impl(t: &mut Tape, ctx: &mut Ctx, big: bool) -> R {
+    // big: the witness-modification choices are drawn before the header
+    let plan = if big { xg::plan_tape(t, 12, 32) } else { Vec::new() };
+    let h = if big { xg::gen_header_x(t) } else { gen::gen_header(t) };
     let hash = check_hash(&h, ctx)?;
+    if big {
+        for f in xg::header_features_x(&h) {
+            ctx.class(&format!("x:{}", f));
+        }
+    }
     let dyna = matches!(h.ext, BlockExtData::Dynafed { .. });
     ctx.class(if dyna { "header:dynafed" } else { "header:proof" });
     if ctx.wants_sample("header") {
@@ -569,6 +746,34 @@ fn headers(t: &mut Tape, ctx: &mut Ctx) -> R {
     let blk = Block { header: h.clone(), txdata: vec![] };
     let bh = guard::guard("Block::block_hash", 0, || blk.block_hash().to_byte_array())?;
     ensure!(bh == hash, "Block::block_hash differs from its header's hash");
+    if big {
+        // Block::block_hash is the header's hash whatever the block holds
+        let o = TxOpts { big: false, max_in: 2, max_out: 2, ..TxOpts::default() };
+        let n = 1 + t.below(3);
+        let blk = Block { header: h.clone(), txdata: (0..n).map(|_| gen::gen_tx(t, &o)).collect() };
+        let bh = guard::guard("Block::block_hash", 0, || blk.block_hash().to_byte_array())?;
+        ensure!(bh == hash, "Block::block_hash of a block with {} transactions differs from its header's hash", n);
+        ctx.class("x:block_hash-with-transactions");
+        // boundary-crossing witness modification
+        let mut pt = Tape::new(&plan);
+        let mut m = h.clone();
+        let label = match &mut m.ext {
+            BlockExtData::Proof { solution, .. } => {
+                *solution = other_solution_x(&mut pt, solution);
+                "solution"
+            }
+            BlockExtData::Dynafed { signblock_witness, .. } => {
+                *signblock_witness = other_stack_x(&mut pt, signblock_witness);
+                "signblock_witness"
+            }
+        };
+        if m != h {
+            let h2 = check_hash(&m, ctx)?;
+            ensure!(h2 == hash, "block hash changed by modifying {} (to a length / count across a compact-size boundary)\n base={:?}\n mod ={:?}", label, xg::header_features_x(&h), xg::header_features_x(&m));
+            ctx.class(&format!("xmod:witness:{}", label));
+            ctx.nontrivial(&("xhw", label, &hash));
+        }
+    }
     // witness-class modification
     {
         let mut m = h.clone();
@@ -632,15 +837,23 @@ pub fn property() -> Property {
         rule: "tx_ids: tape-generated transactions (as C01); oracle: txid/wtxid == harness sha256d of the reference \
                stripped/full encoding, wtxid==txid <=> no witness; then every one of 6 witness-field modification kinds \
                (must keep txid, change wtxid) and 17 non-witness modification kinds (must change txid and wtxid), each on \
-               a tape-chosen position. headers: proof/dynafed headers; block hash == sha256d(reference header without \
+               a tape-chosen position. tx_ids_big: the same on transactions with every count class (up to 1000) whose \
+               elements are varied at every index; the position and choices of each modification are drawn before the \
+               transaction so that they reach high indices (transactions above 40000 bytes get a tape-chosen quarter of \
+               the kinds). headers: proof/dynafed headers; block hash == sha256d(reference header without \
                solution/signblock witness, dynafed bit set); solution/signblock-witness change keeps the hash; clear_witness \
                keeps hash, is idempotent, removes exactly that data; 9 non-witness modification kinds (incl. every dynafed \
-               parameter field and variant) change the hash on the original and the cleared header. Non-trivial: the \
+               parameter field and variant) change the hash on the original and the cleared header. headers_big: the same \
+               on headers whose solution / challenge / parameter scripts / witness items / extension entries and witness / \
+               extension counts cross 0xfd and 0x10000, plus a witness modification that moves a length or a count across \
+               such a boundary, plus Block::block_hash of a block that holds transactions. Non-trivial: the \
                modified field is non-default in the base value; distinct by (field, base id).",
         assumptions: &["harness SHA-256 anchored on FIPS vectors; reference encoder anchored on the repository vectors (C01 vectors sub-check)"],
         subs: vec![
             Sub { name: "tx_ids", kind: Kind::Tape { max_len: 3000, quick: 80_000, thorough: 1_200_000, f: tx_ids } },
             Sub { name: "headers", kind: Kind::Tape { max_len: 2000, quick: 80_000, thorough: 1_200_000, f: headers } },
+            Sub { name: "tx_ids_big", kind: Kind::Tape { max_len: 3000, quick: 8_000, thorough: 200_000, f: tx_ids_big } },
+            Sub { name: "headers_big", kind: Kind::Tape { max_len: 2000, quick: 12_000, thorough: 300_000, f: headers_big } },
         ],
         known: vec![],
     }
